@@ -22,6 +22,9 @@ MUT = [
  ("C11", "qkeras/qlayers.py", "      output = tf.keras.backend.bias_add(output, quantized_bias,\n                                         data_format=\"channels_last\")", "      output = tf.keras.backend.bias_add(output, self.bias,\n                                         data_format=\"channels_last\")", "QDense"),
  ("C11", "qkeras/qconvolutional.py", "        dilation_rate=self.dilation_rate[0])\n\n    if self.use_bias:", "        dilation_rate=1)\n\n    if self.use_bias:", "QConv1D"),
  ("C11", "qkeras/qconvolutional.py", "      quantized_pointwise_kernel = self.pointwise_quantizer_internal(\n          self.pointwise_kernel)\n    else:\n      quantized_pointwise_kernel = self.pointwise_kernel\n\n    outputs = tf.keras.backend.separable_conv2d(\n        inputs,\n        quantized_depthwise_kernel,\n        quantized_pointwise_kernel,\n        strides=self.strides,", "      quantized_pointwise_kernel = self.depthwise_quantizer_internal(\n          self.pointwise_kernel)\n    else:\n      quantized_pointwise_kernel = self.pointwise_kernel\n\n    outputs = tf.keras.backend.separable_conv2d(\n        inputs,\n        quantized_depthwise_kernel,\n        quantized_pointwise_kernel,\n        strides=self.strides,", "QSeparableConv2D"),
+ ("C15", "qkeras/qconv2d_batchnorm.py", "      folded_bias = inv * (bias - new_mean) + beta", "      folded_bias = inv * (bias - new_mean)", "QConv2DBatchnorm"),
+ ("C15", "qkeras/qconv2d_batchnorm.py", "          lambda: mv_inv * (bias - moving_mean) + beta)", "          lambda: mv_inv * (bias + moving_mean) + beta)", "QConv2DBatchnorm"),
+ ("C15", "qkeras/qdepthwiseconv2d_batchnorm.py", "      inv = tf_utils.smart_cond(bn_training, lambda: batch_inv, lambda: mv_inv)", "      inv = tf_utils.smart_cond(bn_training, lambda: mv_inv, lambda: batch_inv)", "QDepthwiseConv2DBatchnorm"),
  ("C16", "qkeras/qtools/quantized_operators/multiplier_impl.py", "    self.output.int_bits = self.input.int_bits + self.weights.int_bits", "    self.output.int_bits = max(self.input.int_bits, self.weights.int_bits)", "qbits_x_qbits"),
  ("C17", "qkeras/qtools/quantized_operators/accumulator_impl.py", "    self.log_add_ops = int(np.ceil(np.log2(add_ops)))", "    self.log_add_ops = int(np.floor(np.log2(add_ops)))", "qbits_rank2"),
  ("C17", "qkeras/qtools/quantized_operators/adder_impl.py", "    fractional_bits = max(fractional_bits1, fractional_bits2)", "    fractional_bits = min(fractional_bits1, fractional_bits2)", "qbits_plus_qbits"),
